@@ -129,4 +129,11 @@ var propSpecs = []PropSpec{
 		NotDecided:  "agreement of the bundled data with the actions' real action.yml files; YAML decoding of metadata files; the type computed for a literal `with:` value",
 		Assumptions: commonAssumptions,
 	},
+	{
+		ID:          "C05",
+		Rules:       []string{"C05.STEP", "C05.JOB", "C05.NEEDS", "C05.STRICT", "C05.UPD", "C05.SELF", "C06.OPEN", "C08.KEYW"},
+		Explanation: "Scope resolution is decided as a typestate discipline on the seven scope fields of RuleExpression: (STEP) no call from which the semantic check is reachable (call graph) can execute after the step's id was stored into stepsTy.Props, and the id is stored lower-cased; (JOB) in VisitJobPre needsTy and matrixTy are stored before any expression-checking call other than the one computing them, stepsTy is a fresh empty strict object on every path and only after the job-level checks, VisitJobPost resets all three on every path and after its checks, and nobody else assigns them; (NEEDS) populateDependantNeedsTypes is not recursive, reads Job.Needs only from the job being checked, and enters needs.<lower id> as a strict object iff the job exists under the same key, with strict outputs from its declared outputs; (STRICT) every object stored into a scope field originates from a strict constructor (matrixTy may be open through checkMatrixExpression) and every Loose() is control-dependent on an expression test; (UPD) each field is handed, iff non-nil and before Check, to the Update method of its own context, which replaces exactly vars[<that context>]; (SELF) a workflow_call input is registered after its own default was checked; (OPEN, shared with C06) undefined-property reports are strict-only; (KEYW, shared with C08) scope keys are lower-cased.",
+		NotDecided:  "the matrix row/include merge (value-level), merged dispatch+call inputs in UpdateInputs, automatic secrets list, positions of the diagnostics",
+		Assumptions: commonAssumptions,
+	},
 }
